@@ -293,9 +293,10 @@ func fiatReduced(cfg, name, pos string, d *absint.LimbDom, ov, aV, bV *poly.Poly
 func (c *Ctx) ruleFiatCmov(cfg string) {
 	p := c.Prog(cfg)
 	o := report.Obligation{Rule: "FIAT-CMOV", Key: "FIAT-CMOV/fiatScalarCmovznzU64", Config: cfg}
-	f := c.anchor(p, "fiatScalarCmovznzU64")
+	f := p.ByName["fiatScalarCmovznzU64"]
 	if f == nil {
-		c.Set.Add(o)
+		// no such helper: nothing is taken as a selection primitive (selections written inline are evaluated where
+		// they stand, by the word domain)
 		return
 	}
 	o.Pos = p.Rel(f.Pos())
